@@ -222,3 +222,47 @@ Proof.
   rewrite B. destruct (bind_ins r ins []) as [r0|]; [|reflexivity].
   rewrite exec_block_inner. reflexivity.
 Qed.
+
+(* ---------- fifth group ---------- *)
+Lemma exec_break r : exec r SBreak = Ok (r, Some BRK).
+Proof. reflexivity. Qed.
+Lemma exec_forbe r x it body els :
+  exec r (SForBE x it body els) =
+  match eval r it with
+  | Ok (VL l) => for_else (iter_list_c (fun v r => exec_block (assign x v r) body) l r) (fun r' => exec_block r' els)
+  | Ok _ => rerr
+  | Err z => Err z
+  end.
+Proof. reflexivity. Qed.
+Lemma exec_pop r t x k dflt :
+  exec r (SPop t x k dflt) =
+  st_pop r t x (eval r k) (match dflt with Some d => match eval r d with Ok v => Ok (Some v) | Err z => Err z end | None => Ok None end).
+Proof. reflexivity. Qed.
+Lemma exec_callret r t body ins outs :
+  exec r (SCallRet t body ins outs) =
+  match bind_ins r ins [] with
+  | Err z => Err z
+  | Ok r0 => match exec_block r0 body with
+             | Err z => Err z
+             | Ok (r1, o) => ret_to t o (copy_back r1 outs r)
+             end
+  end.
+Proof.
+  cbn [exec].
+  assert (B : forall l acc, (fix bind (l : list (string * expr)) (acc : env) : res env :=
+               match l with
+               | [] => Ok acc
+               | (p, a) :: t => match eval r a with Ok v => bind t (assign p v acc) | Err z => Err z end
+               end) l acc = bind_ins r l acc).
+  { induction l as [|[p a] u IH]; intros acc; [reflexivity|]. cbn [bind_ins]. destruct (eval r a); [apply IH | reflexivity]. }
+  rewrite B. destruct (bind_ins r ins []) as [r0|]; [|reflexivity].
+  rewrite exec_block_inner. reflexivity.
+Qed.
+Lemma eval_all r body x it :
+  eval r (EAll body x it) =
+  match eval r it with
+  | Ok itv => match seq_items itv with
+              | Some l => all_list (fun v => eval (assign x v r) body) l
+              | None => rerr end
+  | Err z => Err z end.
+Proof. reflexivity. Qed.
